@@ -575,29 +575,33 @@ func c20fHdrTerm(height int64, ids []int64) string {
 	return zv.Tuple(zv.Z(height), zv.List(zs))
 }
 
+// c20fAloneTerm writes the case in the compact form of CN.Blob.Feed.feed_case_z (one number per event).
 func c20fAloneTerm(x *c20fAlone) string {
 	evs := make([]string, len(x.events))
 	for j, e := range x.events {
-		var et string
+		var code int64
 		switch e.Kind {
 		case "publish":
-			et = zv.App("FPublish", c20fHdrTerm(int64(x.hdrs[e.H-1].Height()), nil))
+			code = 0 + 8*int64(x.hdrs[e.H-1].Height())
 		case "puberr":
-			et = "FPublishErr"
+			code = 1
 		case "next":
-			et = "FNext"
+			code = 2
 		case "recv":
-			et = "FRecv"
+			code = 3
 		case "feedtick":
-			et = "FTick"
+			code = 4
 		case "cancel":
-			et = "FCancel"
+			code = 5
 		}
-		evs[j] = zv.Tuple(et, zv.Opt(e.Obs, zv.Nat(e.Taken)))
+		if e.Obs {
+			code += 1024 * int64(e.Taken+1)
+		}
+		evs[j] = strconv.FormatInt(code, 10)
 	}
 	got := make([]string, len(x.got))
 	for j, g := range x.got {
-		got[j] = c20fHdrTerm(g.Height, nil)
+		got[j] = strconv.FormatInt(g.Height, 10)
 	}
 	return zv.Tuple(zv.List(evs), zv.List(got), zv.Bool(x.pc == "closed"))
 }
@@ -1182,7 +1186,7 @@ func c20fRunComp(t *testing.T, r *zv.Run, pool *c20fPool, seed uint64) *c20fComp
 		}
 		switch s.bpc {
 		case "retry":
-			if s.pace != 2 && s.queue > 0 && rng.Chance(25) {
+			if s.pace != 2 && s.queue > 0 && rng.Chance(map[int]int{0: 60, 1: 25}[s.pace]) {
 				r.Count("event", "consume")
 				x.evConsume(s)
 				continue
@@ -1233,10 +1237,10 @@ func c20fRunComp(t *testing.T, r *zv.Run, pool *c20fPool, seed uint64) *c20fComp
 	if !x.bad && rng.Chance(70) {
 		for _, s := range x.subs {
 			for guard := 0; guard < 400 && !x.bad && s.bpc != "closed"; guard++ {
-				if s.bpc == "retry" {
-					x.evOutcome(s, true)
-				} else if s.queue > 0 {
+				if s.queue > 0 {
 					x.evConsume(s)
+				} else if s.bpc == "retry" {
+					x.evOutcome(s, true)
 				} else {
 					break
 				}
@@ -1246,6 +1250,9 @@ func c20fRunComp(t *testing.T, r *zv.Run, pool *c20fPool, seed uint64) *c20fComp
 			}
 			if !x.bad && s.bpc == "idle" {
 				r.Count("final", "caught-up")
+				if s.sawLongOutage {
+					r.Count("final", "caught-up-after-long-outage")
+				}
 			}
 		}
 	}
@@ -1335,7 +1342,7 @@ func TestVerifC20Feed(t *testing.T) {
 	// several groups each: the driver evaluates the groups' files in parallel
 	var gfs, gcs []*zv.Group
 	for i := 0; i < 2; i++ {
-		gfs = append(gfs, r.Group(fmt.Sprintf("feed%d", i), c20fCoqHeader, "feed_case", "feed_mismatches"))
+		gfs = append(gfs, r.Group(fmt.Sprintf("feed%d", i), c20fCoqHeader, "feed_case_z", "feed_mismatches_z"))
 	}
 	for i := 0; i < 4; i++ {
 		gcs = append(gcs, r.Group(fmt.Sprintf("compose%d", i), c20fCoqHeader, "comp_case", "comp_mismatches"))
@@ -1395,7 +1402,7 @@ func TestVerifC20Feed(t *testing.T) {
 		return
 	}
 	rng := r.Rand()
-	nAlone, nComp := r.N(400, 20000), r.N(220, 12000)
+	nAlone, nComp := r.N(400, 12000), r.N(180, 5000)
 	if v, err := strconv.Atoi(os.Getenv("VERIF_C20_N")); err == nil && v > 0 {
 		nAlone, nComp = v, v
 	}
